@@ -1561,6 +1561,68 @@ def eval_isolation(case):
     return out
 
 
+# ---------------------------------------------------------------------------
+# empty stored hash: a user whose hash field is the empty string IS a user (the plaintext scheme -- part of
+# htpasswd_context -- stores the empty password that way; 'user:' is a well-formed line)
+# ---------------------------------------------------------------------------
+def eval_empty_hash(case):
+    import passlib.apache as A
+    from passlib.context import CryptContext
+
+    how, form = case["how"], case["form"]
+    out = []
+    key = f"C16|htpasswd|empty_hash:{how}:"
+    u = "bob" if form == "text" else b"bob"
+    try:
+        if how == "set_password_plaintext_default":
+            ht = A.HtpasswdFile(default_scheme="plaintext")
+            ht.set_password(u, "")
+        elif how == "set_password_plaintext_context":
+            ht = A.HtpasswdFile(context=CryptContext(["plaintext", "md5_crypt"]))
+            ht.set_password(u, "")
+        elif how == "set_hash_empty":
+            ht = A.HtpasswdFile()
+            ht.set_hash(u, "" if form == "text" else b"")
+        else:
+            ht = A.HtpasswdFile.from_string(b"alice:x\nbob:\n")
+        if ht.get_hash(u) != b"":
+            out.append((key + "get_hash", f"get_hash({u!r}) = {ht.get_hash(u)!r}, expected b''"))
+        if "bob" not in ht.users():
+            out.append((key + "users", f"users() = {ht.users()!r}"))
+        for pw, want in (("", True), (b"", True), ("x", False)):
+            got = ht.check_password(u, pw)
+            if got is not want:
+                out.append((key + f"check_password:{'right' if want else 'wrong'}_password", f"{how}: check_password({u!r}, {pw!r}) = {got!r}, expected {want} (the user exists, its stored hash is the empty string)"))
+        text = ht.to_string()
+        if b"bob:\n" not in text:
+            out.append((key + "export", f"to_string() = {text!r}"))
+        back = A.HtpasswdFile.from_string(text, default_scheme="plaintext")
+        if back.check_password(u, "") is not True or back.check_password(u, "nope") is not False:
+            out.append((key + "reload", f"{how}: after to_string -> from_string check_password({u!r}, '') / (.., 'nope') = {back.check_password(u, '')!r} / {back.check_password(u, 'nope')!r}"))
+        if ht.check_password("nobody", "") is not None:
+            out.append((key + "unknown_user", f"check_password('nobody', '') = {ht.check_password('nobody', '')!r}, expected None"))
+    except Exception as e:  # noqa: BLE001
+        out.append((key + f"raises:{type(e).__name__}", f"{how} ({form}): raised {e!r}"))
+    return out
+
+
+def empty_hash_cases():
+    return [{"part": "empty_hash", "how": h, "form": f, "mode": "normal"}
+            for h in ("set_password_plaintext_default", "set_password_plaintext_context", "set_hash_empty", "file_line") for f in ("text", "bytes")]
+
+
+def work_empty_hash(task):
+    acc = Acc()
+    for case in task["cases"]:
+        acc.ev()
+        acc.cls("empty_hash", case["how"], case["form"])
+        vs = eval_empty_hash(case)
+        acc.outcome(("empty_hash", "viol" if vs else "ok"))
+        for key, desc in vs:
+            acc.violation(key, desc, case)
+    return acc
+
+
 def isolation_cases(seed):
     return [{"part": "isolation", "cls": c, "ctor_a": a, "ctor_b": b, "seed": seed, "mode": "normal"}
             for c in ("htpasswd", "htdigest") for a in CTORS for b in CTORS]
@@ -1592,6 +1654,8 @@ def run_task(task):
             return work_default(task)
         if part == "isolation":
             return work_isolation(task)
+        if part == "empty_hash":
+            return work_empty_hash(task)
         raise HarnessError(f"unknown part {part}")
     finally:
         teardown_env()
@@ -1659,6 +1723,7 @@ def run(ctx):
         ctx.cap("objects share state: the exploration (one fresh object per history) is void and was not run")
         ctx.assume("isolation of objects failed; only the isolation cases were evaluated")
         return
+    ctx.merge(work({"part": "empty_hash", "cases": empty_hash_cases()}), part="empty_hash")
     singles, batches = [], {"normal": [], "O": []}
     for mode in ("normal", "O"):
         for cfg in roots(quick, ctx.seed):
@@ -1749,6 +1814,8 @@ def _replay_here(case):
             return eval_default(case)
         if part == "isolation":
             return eval_isolation(case)
+        if part == "empty_hash":
+            return eval_empty_hash(case)
         raise HarnessError(f"unknown case part {part}")
     finally:
         teardown_env()
